@@ -43,33 +43,43 @@ for d in sorted(glob.glob(os.path.join(V, "seeded", "*"))):
             det += f" (first blind run: {m['first_run_verdict']})"
     out.append(f"| {name} | {wave} | {', '.join(os.path.basename(x) for x in m.get('files', []))} | {first} | {det} |")
 out += ["", f"Applicable changes: {n_app}; reported by the property's own quick check: {n_det}.", ""]
-# first-run (blind) statistics of wave 2
-per = {}
-for d in sorted(glob.glob(os.path.join(V, "seeded", "*-w2*"))):
-    mp = os.path.join(d, "meta.json")
-    if not os.path.exists(mp):
-        continue
-    m = json.load(open(mp))
-    v = m.get("first_run_verdict")
-    if not v:
-        continue
-    row = per.setdefault(m["property"], [0, 0, 0, 0])
-    row[0] += 1
-    if v.startswith("detected"):
-        row[1] += 1
-    elif v.startswith("analysis error"):
-        row[2] += 1
-    else:
-        row[3] += 1
-if per:
-    out += ["**Wave 2, first blind run** (the property's own quick check, before the patch was read or any rule touched):", "",
-            "| property | changes | reported (exit 1) | analysis error (exit 2, fail-closed) | silent |", "|---|---|---|---|---|"]
+# first-run (blind) statistics of the blind waves
+def blind_table(title, select):
+    per = {}
+    for d in sorted(glob.glob(os.path.join(V, "seeded", "*"))):
+        mp = os.path.join(d, "meta.json")
+        if not os.path.exists(mp):
+            continue
+        m = json.load(open(mp))
+        v = m.get("first_run_verdict")
+        if not v or not select(os.path.basename(d), m):
+            continue
+        row = per.setdefault(m["property"], [0, 0, 0, 0])
+        row[0] += 1
+        if v.startswith("detected"):
+            row[1] += 1
+        elif v.startswith("analysis error"):
+            row[2] += 1
+        else:
+            row[3] += 1
+    if not per:
+        return []
+    o = [title, "", "| property | changes | reported (exit 1) | analysis error (exit 2, fail-closed) | silent |", "|---|---|---|---|---|"]
     tot = [0, 0, 0, 0]
     for k in sorted(per):
-        out.append(f"| {k} | {per[k][0]} | {per[k][1]} | {per[k][2]} | {per[k][3]} |")
-        tot = [a + b for a, b in zip(tot, per[k])]
-    out.append(f"| **all** | **{tot[0]}** | **{tot[1]}** | **{tot[2]}** | **{tot[3]}** |")
-    out.append("")
+        o.append(f"| {k} | {per[k][0]} | {per[k][1]} | {per[k][2]} | {per[k][3]} |")
+        tot = [a_ + b_ for a_, b_ in zip(tot, per[k])]
+    o.append(f"| **all** | **{tot[0]}** | **{tot[1]}** | **{tot[2]}** | **{tot[3]}** |")
+    o.append("")
+    return o
+
+
+out += blind_table("**Wave 2, first blind run** (the property's own quick check, before the patch was read or any rule touched):",
+                   lambda n, m: "-w2" in n)
+out += blind_table("**Wave 3, first blind run, machinery as after wave 2 (no packs):**",
+                   lambda n, m: "-w3" in n and m.get("blind_run_machinery", "").startswith("rules as after"))
+out += blind_table("**Wave 3, first blind run, with rule packs:**",
+                   lambda n, m: "-w3" in n and m.get("blind_run_machinery", "") == "with rule packs")
 out += ["## Appendix E — rules each property's check runs (from the last evidence files)", "",
         "| property | rules (obligations discharged / raised) |", "|---|---|"]
 for f in sorted(glob.glob(os.path.join(V, "evidence", "C*.json"))):
